@@ -17,6 +17,11 @@ impl<'a> VxPeekChars<'a> {
             old(self)@.len() > 0 ==> r is Some && *r->Some_0 == old(self)@[0],
     { unimplemented!() }
 
+    /// `chars().peekable()` is already this model
+    pub fn peekable(self) -> (r: Self)
+        ensures r@ == self@
+    { self }
+
     #[verifier::external_body]
     pub fn next(&mut self) -> (r: Option<char>)
         ensures
